@@ -743,10 +743,25 @@ func (p *Peer) retryDoc(ctx context.Context, peerIDString string, docID string) 
 		if err != nil {
 			return err
 		}
+
+		// The receiver identifies the collection by its collection ID, which differs from the
+		// ID of the schema version the block was written under once the schema has been patched.
+		versionID := head.block.Delta.GetSchemaVersionID()
+		cols, err := clientTxn.GetCollections(ctx, client.CollectionFetchOptions{
+			VersionID:       immutable.Some(versionID),
+			IncludeInactive: immutable.Some(true),
+		})
+		if err != nil {
+			return err
+		}
+		if len(cols) == 0 {
+			return client.NewErrCollectionNotFoundForCollectionVersion(versionID)
+		}
+
 		updateEvent := event.Update{
 			DocID:        docID,
 			Cid:          head.cid,
-			CollectionID: head.block.Delta.GetSchemaVersionID(),
+			CollectionID: cols[0].Version().CollectionID,
 			Block:        rawblock,
 			IsRetry:      true,
 		}
